@@ -51,7 +51,7 @@ func genMutant(t *rapid.T, cfg *vlib.Config, set *vlib.ParamSet, f [5]string, sa
 		"empty-field", "drop-field", "dup-field", "swap-fields",
 		"text-truncate", "bytes-truncate", "bytes-extend", "bitflip",
 		"reencode", "separator", "inject-ctl", "alg-id", "pid", "ts", "line2", "whole-file",
-		"bytes-truncate", "bitflip", "pid", "text-truncate", "line-prefix", "line-prefix", "line-prefix",
+		"bytes-truncate", "bitflip", "pid", "text-truncate", "line-prefix", "line-prefix", "line-prefix", "long-line", "long-line",
 	}).Draw(t, "kind")
 	m := c02Mutant{Kind: kind}
 	switch kind {
@@ -72,6 +72,19 @@ func genMutant(t *rapid.T, cfg *vlib.Config, set *vlib.ParamSet, f [5]string, sa
 		}
 		m.Content = []byte(line[:k] + rapid.SampledFrom([]string{"", "\n", "\r\n"}).Draw(t, "term"))
 		m.Field = fmt.Sprint(strings.Count(line[:k], ":"))
+	case "long-line":
+		// a valid record followed, on the same line, by padding that carries the line across a buffer-size boundary and
+		// then by something that certainly does not belong there: a reader that looks at a bounded prefix only sees a valid record
+		line := strings.Join(fs, ":")
+		total := rapid.SampledFrom([]int{4095, 4096, 4097, 8192, 65536, 65537, 1 << 20}).Draw(t, "total")
+		pad := rapid.SampledFrom([]string{"\r", " ", "\x00", "A", "=", "\t"}).Draw(t, "pad")
+		tail := rapid.SampledFrom([]string{":junk\x00", "x", ":", ":" + fs[4]}).Draw(t, "tail")
+		n := total - len(line)
+		if n < 1 {
+			n = 1
+		}
+		m.Content = []byte(line + strings.Repeat(pad, n) + tail + rapid.SampledFrom([]string{"", "\n", "\r\n"}).Draw(t, "term"))
+		m.Field = fmt.Sprintf("%d/%q", total, pad)
 	case "valid-nonl":
 		m.Content = []byte(strings.Join(fs, ":"))
 	case "valid-aux":
@@ -375,6 +388,64 @@ func TestC02HashFile(t *testing.T) {
 			}
 			if ex, _, _ := d.Exists(user); ex {
 				t.Fatalf("VIOLATION C02: user still exists after RemoveUser")
+			}
+		}
+		// the same handle, the same file name, new content: a long-lived store handle must judge what the file holds NOW.
+		// The valid file is replaced in place by clearly invalid content of the same length with the same modification
+		// time (what an editor, a restore or a sync tool can do), then put back.
+		if class == "VALID" && mu.Kind == "valid" {
+			st0, _ := os.Stat(fn)
+			tamper := func(kind string) []byte {
+				b := append([]byte(nil), mu.Content...)
+				switch kind {
+				case "unknown-algorithm":
+					b[0] = 'x'
+				case "missing-separator":
+					b[bytes.IndexByte(b, ':')] = ';'
+				case "unknown-parameter-set":
+					i := bytes.IndexByte(b, ':')
+					j := i + 1 + bytes.IndexByte(b[i+1:], ':')
+					k := j + 1 + bytes.IndexByte(b[j+1:], ':')
+					for x := j + 1; x < k; x++ {
+						b[x] = '9'
+					}
+				}
+				return b
+			}
+			for _, tk := range []string{"unknown-algorithm", "missing-separator", "unknown-parameter-set"} {
+				bad := tamper(tk)
+				if supportedLooking(cfg, vlib.FirstLine(bad)) || cfg.Verify(vlib.FirstLine(bad), pw) {
+					continue // (e.g. parameter set 9 happens to be configured)
+				}
+				if err := os.WriteFile(fn, bad, 0o600); err != nil {
+					t.Fatalf("VERIF-INFRA %v", err)
+				}
+				os.Chtimes(fn, st0.ModTime(), st0.ModTime())
+				if ok, _, _, _, _ := d.Authenticate(user, pw); ok {
+					t.Fatalf("VIOLATION C02: after the file was replaced in place (same length, same mtime) by a record with %s, the handle still authenticates: %s", tk, vlib.Q(vlib.FirstLine(bad)))
+				}
+				l2, _ := d.List()
+				lf2, _ := d.ListFull()
+				if _, in := l2[user]; in || lf2[user].IsSupported {
+					t.Fatalf("VIOLATION C02: after the file was replaced in place (same length, same mtime) by a record with %s, it is still listed / reported as supported (list=%v full=%+v)", tk, in, lf2[user])
+				}
+				if err := d.UpdateUser(user, "newpw-after-tamper"); err == nil {
+					t.Fatalf("VIOLATION C02: UpdateUser overwrote a file that had been replaced in place by a record with %s", tk)
+				}
+				if now, _ := os.ReadFile(fn); !bytes.Equal(now, bad) {
+					t.Fatalf("VIOLATION C02: refused UpdateUser changed the tampered file")
+				}
+				// ... and back: the valid content is valid again
+				os.WriteFile(fn, mu.Content, 0o600)
+				os.Chtimes(fn, st0.ModTime(), st0.ModTime())
+				if ok, _, _, _, _ := d.Authenticate(user, pw); !ok {
+					t.Fatalf("VIOLATION C02: after the valid content was put back (same length, same mtime) the record no longer authenticates")
+				}
+				if l3, _ := d.List(); func() bool { _, in := l3[user]; return !in }() {
+					t.Fatalf("VIOLATION C02: after the valid content was put back (same length, same mtime) the user is not listed")
+				}
+				vlib.NT("c02-inplace", tk, set.Alg)
+				vlib.Class("file-replaced-in-place-under-a-live-handle")
 			}
 		}
 		// "never ... a hang": having handled the file, the handle still serves an unrelated write promptly
